@@ -199,6 +199,29 @@ func runC10(c *eng.Ctx) {
 					}
 				}
 			}
+			// the declared includeSnapshotsFrom of the kubernetes bindings are checked against the *effective* bindings
+			// (an unnamed binding is called "kubernetes" there, not ""): CheckIncludeSnapshots(c.OnKubernetesEvents,
+			// <effective binding>.IncludeSnapshotsFrom...) on every path to a successful return, error returned
+			effList := p.Field(pkgCfg, "HookConfig", "OnKubernetesEvents")
+			var inclCall *ast.CallExpr
+			for _, call := range callsDeep(info, f.Decl.Body, isObj(check)) {
+				if len(call.Args) == 2 && call.Ellipsis.IsValid() && eng.IsField(info, call.Args[0], effList) {
+					if sx, isS := ast.Unparen(call.Args[1]).(*ast.SelectorExpr); isS && sx.Sel.Name == "IncludeSnapshotsFrom" {
+						if el := elemLoopAt(info, f.Decl.Body, call.Pos()); el != nil && eng.IsField(info, el.Base, effList) && el.IsElem(sx.X) {
+							inclCall = call
+						}
+					}
+				}
+			}
+			okIncl := false
+			detail := "no CheckIncludeSnapshots(c.OnKubernetesEvents, binding.IncludeSnapshotsFrom...) over the effective bindings"
+			pos := f.Decl.Pos()
+			if inclCall != nil {
+				pos = inclCall.Pos()
+				v := errHandled(g, inclCall, nil)
+				okIncl, detail = v.OK, v.Detail
+			}
+			r4b.Check(okIncl, f.Key+" declared-includes-checked", pos, "every kubernetes binding's includeSnapshotsFrom is checked against the effective binding names, error returned", "the includeSnapshotsFrom lists declared for kubernetes bindings are not checked against the effective binding names (after defaults were applied): a reference to an unnamed binding by its default name is rejected, an unknown or ambiguous name is accepted: "+detail)
 			r4b.Check(ok, f.Key+" group-lists-checked", f.Decl.Pos(), "CheckIncludeSnapshots on every group's list before the merge", "the names added for a group are not checked to exist and be unambiguous: two kubernetes bindings of one group with the same (or no) name collapse into a single snapshots key")
 		}
 	}
